@@ -11,11 +11,16 @@ class Use:
         only_list: set[str] = None,
         rename_map: dict[str, str] = None,
         line_number: int = 0,
+        hidden: set[str] = None,
     ):
         if only_list is None:
             only_list = set()
         if rename_map is None:
             rename_map = {}
+        # Names of the module that are not accessible under their own name,
+        # because a rename list without ONLY (USE mod, loc => rem) gives the
+        # entity another local name
+        self.hidden: set[str] = set() if hidden is None else hidden
         self.mod_name: str = mod_name.lower()
         self._line_no: int = line_number
         self.only_list: set[str] = only_list
